@@ -185,6 +185,17 @@ pub fn buffer_calls(v: &RVal, o: &Opts) -> Vec<BufCall> {
         let b1 = b.clone();
         out.push(BufCall { label: "convert_to_comparable".into(), run: Box::new(move |d, _| { jsonb::convert_to_comparable(&b1, d); Ok(()) }) });
     }
+    {
+        // builders fed by an iterator whose size hint is not exact (filter) and by a long one
+        let b1 = b.clone();
+        let q: Arc<Vec<u8>> = Arc::new(o.pool[5].1.clone());
+        let q1 = q.clone();
+        out.push(BufCall { label: "build_array(filtered iterator of 3)".into(), run: Box::new(move |d, _| { let items = [&b1[..], &q1[..], &b1[..]]; jsonb::build_array(items.iter().copied().filter(|x| !x.is_empty()), d) }) });
+        let (b1, q1) = (b.clone(), q.clone());
+        out.push(BufCall { label: "build_object(filtered iterator of 3)".into(), run: Box::new(move |d, _| { let items = [("b", &b1[..]), ("a", &q1[..]), ("c", &b1[..])]; jsonb::build_object(items.iter().copied().filter(|x| !x.1.is_empty()), d) }) });
+        let b1 = b.clone();
+        out.push(BufCall { label: "build_array(40 items via chain/filter)".into(), run: Box::new(move |d, _| jsonb::build_array((0..40).map(|_| &b1[..]).filter(|x| x.len() > 1), d)) });
+    }
     for p in PATH_MENU {
         for which in 0..7 {
             let b1 = b.clone();
